@@ -1,0 +1,153 @@
+//go:build verif
+
+// Contracts for contract-based deductive verification (checked by /verif/govc).
+// This file is comment-only and compiled only with the build tag "verif".
+// C09 (no leaks): failed balloon creation gives the CPUs back; Reconfigure re-admits only live containers.
+
+package balloons
+
+// (no iface contract for cache.Container.GetPod on purpose: a declaration that is unique across packages would be used
+// everywhere and topology-aware's newRequest relies on the inlined implementation)
+//@ iface github.com/containers/nri-plugins/pkg/resmgr/cache.Container.GetPodID
+//@   modifies nothing
+//@   ensures result == ctrPodID(self)
+//@ iface github.com/containers/nri-plugins/pkg/resmgr/cache.Container.Expand
+//@   modifies nothing
+//@ iface github.com/containers/nri-plugins/pkg/resmgr/cache.Pod.GetID
+//@   modifies nothing
+//@ iface github.com/containers/nri-plugins/pkg/resmgr/cache.Pod.GetNamespace
+//@   modifies nothing
+
+// fillableBalloonInstances keeps its undo steps in a []func() and runs them through a loop over function values
+// (closure $1): calls through values of the unnamed type func() cannot be given a contract, the engine havocs the
+// heap there ("havoc-all at call to dynamic function value t6"), so the completeness of the undo list is NOT
+// machine-checked (see report). What is checked: each undo step does what the property needs.
+//   $2: gives the CPUs of the new balloon back to p.freeCpus; $3: takes the new balloon out of p.balloons again.
+//@ func (*balloons).fillableBalloonInstances$2
+//@   requires p != nil && newBln != nil && p.bpoptions != nil
+//@   modifies p.freeCpus, cpuClass
+//@   ensures[C09] p.freeCpus.Equals(old(p.freeCpus.Union(newBln.Cpus)))
+// C02/C09: CPUs that are free again carry the idle class again (newBalloon -> resizeBalloon had put them into the
+// balloon type's class); no other CPU changes its class.
+//@   ensures[C02,C09] forall x int :: x in newBln.Cpus ==> cpuClass[x] == p.bpoptions.IdleCpuClass
+//@   ensures[C02,C09] forall x int :: !(x in newBln.Cpus) ==> cpuClass[x] == old(cpuClass[x])
+//@ func (*balloons).fillableBalloonInstances$3
+//@   requires p != nil && len(p.balloons) > 0
+//@   modifies p.balloons
+//@   ensures[C09] len(p.balloons) == old(len(p.balloons)) - 1
+//@   ensures[C09] forall k int :: 0 <= k && k < len(p.balloons) ==> p.balloons[k] == old(p.balloons[k])
+
+// ASSUMED frame of the undo runner $1 (it only runs $2/$3, which write p.freeCpus, the CPU classes and p.balloons); the ghost
+// counter undoRuns records that it ran, so that "a failure path forgot to call undo()" is detectable.
+//@ ghost undoRuns int
+//@ assume-contract (*balloons).fillableBalloonInstances$1
+//@   modifies comp balloons.freeCpus, comp balloons.balloons, cpuClass, undoRuns
+//@   ensures undoRuns == old(undoRuns) + 1
+
+// CPU requests of the containers of a balloon are only read (cache lookups)
+//@ func (*balloons).containerRequestedMilliCpus
+//@   requires p != nil && p.cch != nil
+//@   modifies nothing
+//@   ensures[C02,C09] 0 <= result && result <= 1 << 50
+//@ func (*balloons).requestedMilliCpus
+//@   requires p != nil && p.cch != nil && bln != nil
+//@   modifies nothing
+//@   ensures[C02,C09] 0 <= result
+//@ loop 0 in (*balloons).requestedMilliCpus at "range bln.ContainerIDs()"
+//@   invariant 0 <= cpuRequested
+
+// fillableBalloonInstances: (0) every path that hands out no balloon has either not touched p.freeCpus/p.balloons or
+// has run undo(); (1) fill methods other than "new balloon", and "new balloon" without enough free CPUs,
+// leave p.freeCpus and p.balloons alone; (2) right before each undo() the state differs from the entry state by
+// exactly what the registered undo steps revert: the new balloon's CPUs are the only CPUs missing from
+// p.freeCpus ($2 gives them back) and p.balloons is longer by one iff the second step ($3) is registered.
+//@ func (*balloons).fillableBalloonInstances tags=C02
+//@   requires p != nil && blnDef != nil && c != nil && p.bpoptions != nil && p.options != nil && p.options.System != nil && p.cpuAllocator != nil && p.cch != nil && p.cpuTree != nil
+//@   modifies comp balloons.balloons, comp balloons.freeCpus, comp Balloon.SharedIdleCpus, comp Balloon.Mems, cpuClass, pinnedCpus, pinnedMems, cpuShares, undoRuns, maps map[string][]cpuset.CPUSet
+//@   ensures[C09] result1 != nil || len(result0) == 0 ==> undoRuns > old(undoRuns) || (p.freeCpus.Equals(old(p.freeCpus)) && p.balloons == old(p.balloons))
+//@   ensures[C09] fm != FillNewBalloon && fm != FillNewBalloonMust ==> p.freeCpus.Equals(old(p.freeCpus)) && p.balloons == old(p.balloons)
+//@   ensures[C09] old(p.freeCpus.Size() == 0 || p.freeCpus.Size() < blnDef.MinCpus) ==> p.freeCpus.Equals(old(p.freeCpus)) && p.balloons == old(p.balloons)
+//@ assert[C09] in (*balloons).fillableBalloonInstances at "undo()": newBln != nil && newBln.Cpus.Union(p.freeCpus).Equals(old(p.freeCpus)) &&
+//@    1 <= len(undoFuncs) && len(undoFuncs) <= 2 && len(p.balloons) == old(len(p.balloons)) + len(undoFuncs) - 1
+// the new balloon is appended, the others stay where they were
+//@ assert[C09] in (*balloons).fillableBalloonInstances at "if newBln.Cpus.Size() > 0 {": len(p.balloons) == old(len(p.balloons)) + 1 &&
+//@    p.balloons[old(len(p.balloons))] == newBln && newBln.Def == blnDef &&
+//@    (forall i int :: 0 <= i && i < old(len(p.balloons)) ==> p.balloons[i] == old(p.balloons[i]))
+
+// ---- a stopped container never regains resources (C09, C13) -----------------------------------------------------------
+// State of a container as the cache reports it (ASSUMED thin interface contracts).
+//@ pure ctrState(c cache.Container) cache.ContainerState
+//@ iface github.com/containers/nri-plugins/pkg/resmgr/cache.Container.GetState
+//@   modifies nothing
+//@   ensures result == ctrState(self)
+//@ pure liveCtr(c cache.Container) bool = ctrState(c) == cache.ContainerStateCreated || ctrState(c) == cache.ContainerStateRunning
+//@ pure allLive(cs []cache.Container) bool = forall i int :: 0 <= i && i < len(cs) ==> liveCtr(cs[i])
+// GetContainers returns every cached container, whatever its state (stopped ones stay cached until removed).
+//@ iface github.com/containers/nri-plugins/pkg/resmgr/cache.Cache.GetContainers
+//@   modifies nothing
+// Sorting permutes the slice (ASSUMED: sort.Slice with comparison callbacks; a property of every element survives).
+//@ assume-contract github.com/containers/nri-plugins/pkg/resmgr/cache.SortContainers
+//@   modifies containers[*]
+//@   ensures old(allLive(containers)) ==> allLive(containers)
+
+// The property-level obligation: resources are allocated only to containers that are created or running.
+// (AllocateResources/ReleaseResources themselves are not verified here: ASSUMED contracts, the precondition is the point.)
+// (ASSUMED frame: they change the policy's own bookkeeping and what is told to the runtime, nothing else)
+//@ assume-contract (*balloons).AllocateResources
+//@   requires liveCtr(c)
+//@   modifies comp balloons.balloons, comp balloons.freeCpus, comp Balloon.Cpus, comp Balloon.SharedIdleCpus, comp Balloon.Mems, comp Balloon.PodIDs, comp Balloon.Groups,
+//@     maps map[string][]string, maps map[string]int, maps map[string][]cpuset.CPUSet, cpuClass, pinnedCpus, pinnedMems, cpuShares, undoRuns
+//@ assume-contract (*balloons).ReleaseResources
+//@   modifies comp balloons.balloons, comp balloons.freeCpus, comp Balloon.Cpus, comp Balloon.SharedIdleCpus, comp Balloon.Mems, comp Balloon.PodIDs, comp Balloon.Groups,
+//@     maps map[string][]string, maps map[string]int, maps map[string][]cpuset.CPUSet, cpuClass, pinnedCpus, pinnedMems, cpuShares, undoRuns
+
+//@ func (*balloons).Sync
+//@   requires p != nil && allLive(add)
+//@   ensures[C09,C13] result == nil
+//@ loop 0 in (*balloons).Sync at "range del"
+//@   invariant allLive(add)
+//@ loop 1 in (*balloons).Sync at "range add"
+//@   invariant -1 <= rangeindex && rangeindex < len(add) && allLive(add)
+
+// ---- Reconfigure ---------------------------------------------------------------------------------------------------------
+// comparing configurations (DeepCopy + JSON dump) only reads them: ASSUMED
+//@ assume-contract changesBalloons
+//@   modifies nothing
+//@ assume-contract changesCpuClasses
+//@   modifies nothing
+//@ func (*balloons).resetCpuClass
+//@   requires p != nil && p.bpoptions != nil
+//@   modifies cpuClass
+//@   ensures[C02] result == nil
+//@   ensures[C02] forall x int :: cpuClass[x] == ((x in p.allowed) ? p.bpoptions.IdleCpuClass : old(cpuClass[x]))
+
+// C09/C13: after an accepted update only containers that are created or running are re-admitted: the call of
+// Sync satisfies Sync's precondition allLive(add) (the filter loop over the cached containers, loop 2 below). (C13, idempotence) at the "no configuration changes" exit
+// nothing has been modified.
+//@ func (*balloons).Reconfigure
+//@   requires p != nil && p.cch != nil && p.options != nil && p.options.System != nil && p.bpoptions != nil && p.cpuAllocator != nil && p.cpuTree != nil
+//@   ensures[C09,C13] true
+//@ assert[C13] in (*balloons).Reconfigure at "no configuration changes": p.bpoptions == old(p.bpoptions) && p.balloons == old(p.balloons) &&
+//@    p.freeCpus.Equals(old(p.freeCpus)) && p.allowed.Equals(old(p.allowed)) && p.reserved.Equals(old(p.reserved)) &&
+//@    cpuClass == old(cpuClass) && pinnedCpus == old(pinnedCpus) && pinnedMems == old(pinnedMems)
+
+// ---- freeing an emptied balloon -----------------------------------------------------------------------------------------
+// freeBalloon clears the membership; then either everything else stays as it was (the balloon is kept: pre-created
+// instances up to MinBalloons) or the balloon is deleted with ALL its CPUs going back to p.freeCpus.
+//@ func (*balloons).freeBalloon
+//@   requires p != nil && bln != nil && bln.Def != nil && p.bpoptions != nil && p.cpuAllocator != nil && p.cch != nil && p.cpuTree != nil
+//@   modifies bln.PodIDs, p.balloons, p.freeCpus, bln.Cpus, cpuClass, comp Balloon.SharedIdleCpus, comp Balloon.Mems, pinnedCpus, pinnedMems, cpuShares
+//@   ensures[C09] len(bln.PodIDs) == 0
+//@   ensures[C09] (p.balloons == old(p.balloons) && p.freeCpus.Equals(old(p.freeCpus)) && cpuClass == old(cpuClass)) ||
+//@        (!(bln in p.balloons) && p.freeCpus.Equals(old(p.freeCpus.Union(bln.Cpus))))
+
+// C02 ("a balloon has at least as many CPUs as its containers request"): a balloon handed out by the "new balloon"
+// fill method must be inflatable to the container's request. Checked where the two kinds of candidates are
+// returned: the freshly created balloon (capacity is checked by the code) and an EXISTING EMPTY balloon of the
+// type (handed out only if p.maxFreeMilliCpus(bln) >= reqMilliCpus since the fix of the confirmed defect C02; the
+// requests already in the balloon are >= 0, so it can be inflated to the request).
+//@ assert[C02] in (*balloons).fillableBalloonInstances at "return []*Balloon{newBln}, nil": newBln.MaxAvailMilliCpus(p.freeCpus) >= reqMilliCpus
+//@ assert[C02] in (*balloons).fillableBalloonInstances at "return []*Balloon{bln}, nil": bln.MaxAvailMilliCpus(p.freeCpus) >= reqMilliCpus
+// the filter loop of Reconfigure: everything collected into `live` is created or running
+//@ loop 2 in (*balloons).Reconfigure at "range ctrs"
+//@   invariant -1 <= rangeindex && rangeindex < len(ctrs) && newobj(live) && allLive(live)
